@@ -144,8 +144,13 @@ def gen_ident(rng):
 def gen_pathtpl(rng):
     n = rng.choice([1, 5, 30, 100, 200])
     env = {b"VP": b"P" * n}
+    if rng.random() < 0.35:
+        # a source output longer than a (lowered) datasource_message_max_length, spread over several path components (each
+        # component is limited to 255 bytes by the file system; the directories are created beforehand)
+        env = {b"VP": b"/".join([b"p" * rng.choice([60, 100, 120])] * rng.choice([3, 4, 6]))}
     f = rng.choice([b"out-%{env:VP}.log", b"out-%{snoopy_literal:lit}-%{env:VP}", b"o%{noop}ut.%{env:VP}", b"plain-%{env:NOPE}"])
-    return dict(cls="P", fmt=f, env=env, path=b"/bin/p0", argv=[b"p0"], ds=4095, lm=4095)
+    # the path template has its own fixed limit: what the file sets for message data sources must not reach it
+    return dict(cls="P", fmt=f, env=env, path=b"/bin/p0", argv=[b"p0"], ds=4095, lm=4095, dsconf=rng.choice([None, None, 255, 300]))
 
 
 def make_cases(tr):
@@ -165,7 +170,8 @@ def conf_for(c, work, logf):
     if c["cls"] == "I":
         return b"[snoopy]\nmessage_format = \"MSG\"\nsyslog_ident = \"" + c["fmt"] + b"\"\noutput = devlog\n"
     if c["cls"] == "P":
-        return b"[snoopy]\nmessage_format = \"MSG\"\noutput = file:" + os.path.join(work, "t").encode() + (b"/%d-" % c["id"]) + c["fmt"] + b"\n"
+        lim = (b"datasource_message_max_length = %d\nlog_message_max_length = %d\n" % (c["dsconf"], c["dsconf"])) if c.get("dsconf") else b""
+        return b"[snoopy]\n" + lim + b"message_format = \"MSG\"\noutput = file:" + os.path.join(work, "t").encode() + (b"/%d-" % c["id"]) + c["fmt"] + b"\n"
     raise ValueError
 
 
@@ -187,6 +193,7 @@ def run_batch(arg):
             alts = fm.expand(c["fmt"], ctx)
             name = fm.full_text(alts[-1])
             expected_paths[c["id"]] = os.path.join(work, "t").encode() + (b"/%d-" % c["id"]) + name
+            os.makedirs(os.path.dirname(expected_paths[c["id"]]), exist_ok=True)
     # path-template sinks are sampled by reading the expected file afterwards
     # consecutive cases share one process in groups of 1..8: limits, formats and outputs change between calls of one process
     sizes = [1, 2, 1, 3, 2, 5, 1, 4, 2, 8]
